@@ -38,6 +38,30 @@ Definition ext_agree (dir : list member) (e : ext) : bool :=
 
 Definition regs_eqb := list_eqb (pair_eqb Z.eqb node_eqb).
 
+(* one action of a scripted life *)
+Definition bobs_agree (model impl : bobs) : bool :=
+  match model, impl with
+  | XNone, XNone => true
+  | XAck, XAck => true
+  | XFail, XFail => true
+  | XStart regs w ms _, XStart regs' w' ms' q' =>
+      regs_eqb regs regs' && Bool.eqb w w'
+      && perm_eqb member_eqb ms ms' && answers_agree (make_members ms') q'
+  | XPub ms _, XPub ms' q' => perm_eqb member_eqb ms ms' && answers_agree (make_members ms') q'
+  | XWReg a, XWReg b => Z.eqb a b
+  | XWComp, XWComp => true
+  | XWatch n h, XWatch n' h' => Z.eqb n n' && Bool.eqb h h'
+  | XDown k c, XDown k' c' => Z.eqb k k' && Bool.eqb c c'
+  | _, _ => false
+  end.
+
+Fixpoint bobs_all_agree (a b : list bobs) : bool :=
+  match a, b with
+  | [], [] => true
+  | x :: r, y :: t => bobs_agree x y && bobs_all_agree r t
+  | _, _ => false
+  end.
+
 (* [dir]: the member list of the implementation's last publication *)
 Definition obs_agree (dir : list member) (model impl : obs) : bool :=
   match model, impl with
@@ -53,12 +77,14 @@ Definition obs_agree (dir : list member) (model impl : obs) : bool :=
   | BQuery _, BQuery e' => ext_agree dir e'
   | BNode n ok, BNode n' ok' => node_eqb n n' && Bool.eqb ok ok'
   | BStress x, BStress y => Bool.eqb x y
+  | BBoot xs, BBoot xs' => bobs_all_agree xs xs'
   | _, _ => false
   end.
 
 Definition impl_dir (dir : list member) (impl : obs) : list member :=
   match impl with
   | BStart _ _ ms _ | BPub ms _ => ms
+  | BBoot xs => boot_last_pub dir xs
   | _ => dir
   end.
 
